@@ -4,7 +4,7 @@ use std::collections::{BTreeMap, HashSet};
 use std::io::Write;
 use std::sync::atomic::{AtomicBool, AtomicU64, Ordering};
 use std::sync::{Arc, Mutex};
-use std::time::Instant;
+use crate::clockseam::RealInstant as Instant;
 
 use attosim::tape::mix;
 use attosim::{History, SimConfig, Tape};
@@ -152,6 +152,8 @@ pub struct BatchResult {
     pub probes: BTreeMap<&'static str, u64>,
     pub samples: Vec<String>,
     pub found: Vec<Found>,
+    /// runs with a violating verdict (`found` keeps at most 40 per class)
+    pub found_total: u64,
     pub wall_s: f64,
 }
 
@@ -168,6 +170,8 @@ pub fn run_batch(spec: &PropertySpec, seed: u64, thorough: bool, runs: u64, max_
         probes: BTreeMap<&'static str, u64>,
         samples: Vec<(u64, String)>,
         found: Vec<Found>,
+        found_total: u64,
+        per_class: std::collections::HashMap<String, u32>,
     }
     let acc = Arc::new(Mutex::new(Acc {
         evals: 0,
@@ -178,6 +182,8 @@ pub fn run_batch(spec: &PropertySpec, seed: u64, thorough: bool, runs: u64, max_
         probes: BTreeMap::new(),
         samples: Vec::new(),
         found: Vec::new(),
+        found_total: 0,
+        per_class: std::collections::HashMap::new(),
     }));
     let workers: usize = std::env::var("VERIF_WORKERS").ok().and_then(|s| s.parse().ok()).unwrap_or(16);
     // hang monitor: (run index + 1, start in ms since t0) per worker; a run that takes more than
@@ -260,14 +266,20 @@ pub fn run_batch(spec: &PropertySpec, seed: u64, thorough: bool, runs: u64, max_
                     a.samples.push((i, r.report.describe.clone()));
                 }
                 if let Verdict::Violation { class, msg } = &r.report.verdict {
-                    a.found.push(Found {
-                        index: i,
-                        class: class.clone(),
-                        msg: msg.clone(),
-                        gen_tape: r.gen_tape.clone(),
-                        sched_tape: r.report.sched_tape.clone(),
-                        prefix: mine.clone(),
-                    });
+                    a.found_total += 1;
+                    // many runs of one class (a known finding seen all through a long batch) must not end the batch
+                    let n = a.per_class.entry(class.clone()).or_insert(0);
+                    *n += 1;
+                    if *n <= 40 {
+                        a.found.push(Found {
+                            index: i,
+                            class: class.clone(),
+                            msg: msg.clone(),
+                            gen_tape: r.gen_tape.clone(),
+                            sched_tape: r.report.sched_tape.clone(),
+                            prefix: mine.clone(),
+                        });
+                    }
                     if a.found.len() > 2000 {
                         stop.store(true, Ordering::Relaxed);
                     }
@@ -293,6 +305,7 @@ pub fn run_batch(spec: &PropertySpec, seed: u64, thorough: bool, runs: u64, max_
         probes: a.probes,
         samples: a.samples.into_iter().map(|(_, s)| s).collect(),
         found: a.found,
+        found_total: a.found_total,
         wall_s: t0.elapsed().as_secs_f64(),
     }
 }
